@@ -204,6 +204,11 @@ func (ws *WALStorage) Append(entries []myraft.Entry) error {
 	ptr.Offset = recordEnd(infos[0])
 	ptr.AppliedIndex = last.Index
 	ptr.AppliedTerm = last.Term
+	// Until the log is truncated for the first time, the oldest segment still needed is the
+	// one holding the first retained entry, not the segment of the newest record.
+	if ptr.SegmentIndex == 0 && len(ws.entrySpans) > 0 {
+		ptr.SegmentIndex = uint64(ws.entrySpans[0].segmentID)
+	}
 	return ws.updatePointer(ptr)
 }
 
